@@ -27,6 +27,18 @@ CHECKS["C05"] = dict(engine=E2, cat="other", design="DESIGN.md §4 C05",
     technique="CrossHair (z3) symbolic execution of the real api.filter_* functions with contract shims; counterexamples replayed through ParquetFile.to_pandas(filters=...)",
     text="The real filter_val / filter_in / filter_not_in / filter_out_stats / filter_out_cats / filter_row_groups are executed symbolically: chunk bounds (possibly absent), null counts, constants, operator, and a witness row are symbolic integers (and short strings); the postcondition 'a row satisfying the predicate is never pruned, order preserved' is confirmed over all paths or refuted with a counterexample that is replayed on a real file.",
     note="Bounded by harness shapes (<=2 clauses per AND group, <=2 OR groups, in-lists <=3, strings <=2 chars); statistics decoding and partition-text typing are stubbed to identity; float/NaN/datetime bounds outside.")
+CHECKS["C06"] = dict(engine=E2, cat="other", design="DESIGN.md §4 C06",
+    technique="CrossHair (z3) symbolic execution of the real to_pandas/head/count on a shim handle + z3 LIA lemma lifted from pre_allocate's AST",
+    text="Placement arithmetic of full and partial reads: the real to_pandas / head / count run symbolically with row-group sizes in [0, 2^31); postconditions: placements tile the allocation in order, head(n) reads a prefix holding min(n,total) rows, count() = sum. The RangeIndex reconstruction expression is extracted from the source and decided in LIA.",
+    note="Reduced claim: offsets, counts and range-index arithmetic only; column/index selection, pickling and file-like input are pandas/IO glue outside the encoding. Shim handle records what pre_allocate/read_row_group_file are given.")
+CHECKS["C13"] = dict(engine=E2, cat="other", design="DESIGN.md §4 C13",
+    technique="CrossHair (z3) symbolic execution of the real _column_filter / to_pandas mask branch on vector shims; counterexamples replayed through to_pandas(row_filter=True)",
+    text="Predicate evaluation (real _column_filter; row values, constants, operators symbolic) is compared with the documented semantics, and the two-pass masked placement of the real to_pandas is checked for every mask over small row-group shapes. Counterexamples are replayed on real files.",
+    note="Bounded: <=2 rows x 2 columns, <=2 clauses x <=2 groups, masks over <=4 row groups of <=4 rows. numpy/pandas replaced by vector shims with the documented elementwise contracts. Mask application inside page decoding is outside.")
+CHECKS["C16"] = dict(engine=E2, cat="other", design="DESIGN.md §4 C16",
+    technique="CrossHair (z3) symbolic execution of the real update_file_custom_metadata on a symbolic file and of update_custom_metadata on real KeyValue objects; replay on real files",
+    text="In-place footer rewrite for every data length and every old/new footer length (so every footer delta): nothing before the footer is written and the file is exactly data ++ footer ++ len32 ++ PAR1; merge rules compared with the dict-update-with-None-deletes model over str/bytes/non-ASCII key spellings; write-time values decode back verbatim.",
+    note="File is a SymFile shim (length + write log); thrift (de)serialisation stubbed to segments of symbolic length (its content is C10). Merge rules over a 4x4 key/value alphabet, <=2 existing entries, <=2 updates.")
 NA = {
     "C17": "dtype/categorical/index prediction vs what pandas allocates: no symbolic model of pandas' allocation is within reach and prediction and allocation share one function; row counts are decided under C06",
     "C20": "quantifies over CPython thread schedules of code running in pandas/numpy/C extensions; CrossHair executes one thread and no engine here gives a semantics for interleaved bytecode; a hand-written interleaving model would not be the real code",
